@@ -116,6 +116,157 @@ def extract():
             if a.get("child") == "PaddingDpStep":
                 rows.append((pre + [a["seg"]], "count"))
     rows.sort()
+    # 4. execution order of the protected steps: declaration order of HybridStep (the enum is written in
+    #    execution order), sub-steps of Aggregate / Finalize in their enums' order; DifferentialPrivacy runs
+    #    after Finalize (checked on the body of hybrid_protocol).  Only `protocol` rows (the validate gates
+    #    belong to the phase of their protocol step).  Suite c02_channels compares this order with the
+    #    order of first traffic in real runs.
+    kind_of = {tuple(p): k for p, k in rows}
+    validate_of = {}
+    for rel2, t2, m in pairs:
+        p_, v_ = path_of(m.group(1)), path_of(m.group(3))
+        if p_ is not None and v_ is not None:
+            validate_of[tuple(p_)] = v_
+    if tuple([hyb["EvalPrf"]["seg"], "malicious_protocol"]) in kind_of:
+        validate_of[(hyb["EvalPrf"]["seg"], "malicious_protocol")] = [hyb["EvalPrf"]["seg"], "validate"]
+    order = []
+    def emit(path):
+        k = kind_of.get(tuple(path))
+        if k in ("dzkp", "mac", "shuffle", "count"):
+            order.append((path, k))
+    late = []
+    for n, a in enums["HybridStep"]:
+        if n == "Aggregate":
+            for n2, a2 in enums["AggregationStep"]:
+                emit([a["seg"], a2["seg"]])
+        elif n == "Finalize":
+            for n2, a2 in enums["FinalizeSteps"]:
+                emit([a["seg"], a2["seg"]])
+        elif n == "EvalPrf":
+            emit([a["seg"], "malicious_protocol"])
+        elif n == "DifferentialPrivacy":
+            late.append([a["seg"]])
+        else:
+            emit([a["seg"]])
+    tm = read("protocol/hybrid/mod.rs")
+    mfin = re.search(r"\.finalize\(", tm)
+    mdp = re.search(r"dp_for_histogram::<", tm)
+    if mfin and mdp and mfin.start() < mdp.start():
+        record("coverage.order.dp_last", "protocol/hybrid/mod.rs", tm, mdp, "dp_for_histogram after finalize")
+        for p_ in late:
+            emit(p_)
+    else:
+        fail("coverage.order.dp_last", "expected `.finalize(` before `dp_for_histogram::<` in hybrid_protocol")
+    missing = [p for p, k in rows if k in ("dzkp", "mac", "shuffle", "count") and (p, k) not in order]
+    if missing:
+        fail("coverage.order", f"protected steps without a position in the execution order: {missing}")
+    m0 = re.search(r"enum\s+HybridStep", t)
+    record("coverage.order", rel, t, m0, [("/".join(p), k) for p, k in order])
+    # 5. gates on which values are opened (two-copy reveal) inside a DZKP / MAC protected step: variants named
+    #    `Reveal*` of the protocol step itself or of its child enum (one level; MaliciousProtocol -> PrfStep)
+    child_files = {"PrfStep": "protocol/ipa_prf/step.rs", "Fp25519ConversionStep": "protocol/ipa_prf/boolean_ops/step.rs",
+                   "MaliciousProtocolStep": "protocol/context/step.rs"}
+    child_enums = {}
+    for en, relc in child_files.items():
+        tc = read(relc)
+        ec = parse_enums(tc)
+        if en not in ec:
+            fail("coverage.open." + en, f"enum {en} not found in {relc}")
+            continue
+        child_enums[en] = ec[en]
+        record("coverage.open." + en, relc, tc, re.search(r"enum\s+" + en, tc), [(n, a["seg"]) for n, a in ec[en]])
+    open_gates = []
+    def variant_of(path):
+        # the enum variant that produced `path`
+        if len(path) == 1:
+            return next(((n, a) for n, a in enums["HybridStep"] if a["seg"] == path[0]), None)
+        if path[0] == hyb["Aggregate"]["seg"]:
+            return next(((n, a) for n, a in enums["AggregationStep"] if a["seg"] == path[1]), None)
+        if path[0] == hyb["Finalize"]["seg"]:
+            return next(((n, a) for n, a in enums["FinalizeSteps"] if a["seg"] == path[1]), None)
+        if path[0] == hyb["EvalPrf"]["seg"] and "MaliciousProtocolStep" in child_enums:
+            return next(((n, a) for n, a in child_enums["MaliciousProtocolStep"] if a["seg"] == path[1]), None)
+        return None
+    for pth, k in order:
+        if k not in ("dzkp", "mac"):
+            continue
+        va = variant_of(pth)
+        if va is None:
+            continue
+        n, a = va
+        if n.startswith("Reveal"):
+            open_gates.append(pth)
+        ch = a.get("child")
+        if ch in child_enums:
+            for n2, a2 in child_enums[ch]:
+                if n2.startswith("Reveal"):
+                    open_gates.append(pth + [a2["seg"]])
+    if len(open_gates) < 3:
+        fail("coverage.open", f"expected the openings of convert / eval_prf / aggregate, found {open_gates}")
+    # 6. the verified shuffle: rows are committed before the MAC keys are opened.  Statement order in
+    #    `malicious_sharded_shuffle`: the `.await` of h{1,2,3}_shuffle_for_shard precedes `verify_shuffle`, the
+    #    keys are opened (`reveal_keys`) only inside `verify_shuffle`, before the hashes are computed, and the
+    #    shuffle is not joined with anything (no try_join in the function body).
+    rel6 = "protocol/ipa_prf/shuffle/malicious.rs"
+    t6 = read(rel6)
+    mfn = re.search(r"pub async fn malicious_sharded_shuffle.*?\n\}\n", t6, re.S)
+    commit_gates, key_gate = [], []
+    if not mfn:
+        fail("coverage.shuffle_order", "malicious_sharded_shuffle not found")
+    else:
+        body = mfn.group(0)
+        calls = [m_.start() for m_ in re.finditer(r"h[123]_shuffle_for_shard\(ctx\.clone\(\), shares_and_tags\)\.await", body)]
+        mq = re.search(r"\}\?;", body[calls[-1]:]) if calls else None
+        mv = re.search(r"verify_shuffle::<_, S>\(", body)
+        ok6 = (len(calls) == 3 and mq is not None and mv is not None and calls[-1] < mv.start()
+               and "reveal_keys" not in body and "join" not in body)
+        mvf = re.search(r"async fn verify_shuffle.*?\n\}\n", t6, re.S)
+        if mvf:
+            vb = mvf.group(0)
+            mk = re.search(r"let keys = reveal_keys\(&k_ctx, key_shares\)\.await\?;", vb)
+            mh = re.search(r"h1_verify::<_, S>\(", vb)
+            ok6 = ok6 and mk is not None and mh is not None and mk.start() < mh.start() and vb.count("reveal_keys") == 1
+        else:
+            ok6 = False
+        ok6 = ok6 and len(re.findall(r"reveal_keys\(", t6.split("#[cfg(all(test")[0])) == 1  # the call in verify_shuffle (the definition is generic: `reveal_keys<C`)
+        if ok6:
+            record("coverage.shuffle_order", rel6, t6, mfn, "shuffle .await; then verify_shuffle { reveal_keys; h*_verify }")
+        else:
+            fail("coverage.shuffle_order", "statement order of malicious_sharded_shuffle / verify_shuffle changed: the MAC keys must be opened only after the shuffle rounds were awaited")
+    # 6b. evidence for finding F14 (recorded, never failing): H1's part of the rounds ends with the `cardinality`
+    #     word, H2 sends that word before `c1`, and `malicious_reveal` sends its shares before it receives
+    rel8 = "protocol/ipa_prf/shuffle/sharded.rs"
+    t8 = read(rel8)
+    mh1 = re.search(r"pub\(super\) async fn h1_shuffle_for_shard.*?\n\}\n", t8, re.S)
+    mh2 = re.search(r"pub\(super\) async fn h2_shuffle_for_shard.*?\n\}\n", t8, re.S)
+    if mh1 and mh2:
+        b1, b2 = mh1.group(0), mh2.group(0)
+        aw = [m_.start() for m_ in re.finditer(r"\.await", b1)]
+        mc = re.search(r"ShuffleStep::Cardinality\)\s*\.recv_word", b1)
+        record("coverage.shuffle_h1_early_open.h1_last_await_is_cardinality", rel8, t8, mh1,
+               bool(mc and aw and mc.start() < aw[-1] and not re.search(r"\.await", b1[aw[-1] + 6:])) and "TransferC" not in b1)
+        mcs = re.search(r"ShuffleStep::Cardinality\)\s*\.send_word", b2)
+        mtc = re.search(r"ShuffleStep::TransferC\)", b2)
+        record("coverage.shuffle_h1_early_open.h2_cardinality_before_c1", rel8, t8, mh2, bool(mcs and mtc and mcs.start() < mtc.start()))
+    rel9 = "protocol/basics/reveal.rs"
+    t9 = read(rel9)
+    mr = re.search(r"pub async fn malicious_reveal.*?\n\}\n", t9, re.S)
+    if mr:
+        br = mr.group(0)
+        ms_ = re.search(r"try_join\(send_left_fut, send_right_fut\)\.await\?;", br)
+        mrc = re.search(r"left_receiver\.receive\(record_id\)", br)
+        record("coverage.shuffle_h1_early_open.reveal_sends_before_receiving", rel9, t9, mr, bool(ms_ and mrc and ms_.start() < mrc.start()))
+    rel7 = "protocol/ipa_prf/shuffle/step.rs"
+    t7 = read(rel7)
+    e7 = parse_enums(t7)
+    try:
+        ss = dict(e7["ShardedShuffleStep"])
+        vs = dict(e7["VerifyShuffleStep"])
+        commit_gates = [[ss[n]["seg"]] for n in ("TransferXY", "TransferC", "Cardinality")]
+        key_gate = [ss["VerifyShuffle"]["seg"], vs["RevealMACKey"]["seg"]]
+        record("coverage.shuffle_gates", rel7, t7, re.search(r"enum\s+ShardedShuffleStep", t7), {"commit": commit_gates, "key": key_gate})
+    except KeyError as e:
+        fail("coverage.shuffle_gates", f"shuffle step {e} not found in {rel7}")
     lines = [
         "/-! GENERATED by tools/extractors/c02_coverage.py from ipa-core/src/protocol/hybrid/*.rs — do not edit. -/",
         "namespace IpaVerif.Generated",
@@ -124,5 +275,26 @@ def extract():
         "def coverageTable : List (List String × String) := [",
     ]
     lines += ["  (" + "[" + ", ".join('"%s"' % s for s in p) + "]" + ', "%s")' % k + ("," if i + 1 < len(rows) else "") for i, (p, k) in enumerate(rows)]
-    lines += ["]", "", "end IpaVerif.Generated", ""]
+    lines += ["]", ""]
+    def lst(p):
+        return "[" + ", ".join('"%s"' % x for x in p) + "]"
+    lines += ["/-- the protected steps of the hybrid query in execution order (declaration order of `HybridStep` and of its",
+              "child enums; `dp` after `finalize`), each with the mechanism protecting it -/",
+              "def phaseOrder : List (List String × String) := ["]
+    lines += ["  (" + lst(p) + ', "%s")' % k + ("," if i + 1 < len(order) else "") for i, (p, k) in enumerate(order)]
+    lines += ["]", "",
+              "/-- `MaliciousProtocolSteps { protocol, validate }` pairings: protocol step -> validate step -/",
+              "def validateOf : List (List String × List String) := ["]
+    vo = sorted(validate_of.items())
+    lines += ["  (" + lst(list(p)) + ", " + lst(v) + ")" + ("," if i + 1 < len(vo) else "") for i, (p, v) in enumerate(vo)]
+    lines += ["]", "",
+              "/-- gates of DZKP / MAC protected steps on which values are opened (`Reveal*` steps) -/",
+              "def openGates : List (List String) := ["]
+    lines += ["  " + lst(p) + ("," if i + 1 < len(open_gates) else "") for i, p in enumerate(open_gates)]
+    lines += ["]", "",
+              "/-- gates of a verified shuffle that carry rows / row counts (below the shuffle's step) -/",
+              "def shuffleCommitGates : List (List String) := [" + ", ".join(lst(g) for g in commit_gates) + "]", "",
+              "/-- gate (below the shuffle's step) on which the MAC keys are opened -/",
+              "def shuffleKeyGate : List String := " + lst(key_gate), "",
+              "end IpaVerif.Generated", ""]
     return {"Coverage.lean": "\n".join(lines)}
